@@ -70,6 +70,7 @@ type Violation struct {
 	Trace  []Decision
 	Obs    []string
 	Named  map[string]uint64
+	Sched  []int
 }
 
 type pathState struct {
@@ -103,6 +104,7 @@ type pathState struct {
 	pcSet   map[*Term]bool
 	pinned  map[string]uint64
 	nQuick  int
+	yieldLog []int
 	poolChoice bool
 	poolReuse  int
 }
@@ -454,6 +456,7 @@ func (i *interpreter) choice(n int, why string) int {
 		ps.trace = append(ps.trace, d)
 		return int(d.N)
 	}
+	i.decSites["choice:"+why]++
 	for k := 1; k < n; k++ {
 		alt := append(append([]Decision{}, ps.trace...), Decision{'k', uint64(k)})
 		ps.pending = append(ps.pending, WorkItem{Prefix: alt, Model: ps.model})
@@ -524,7 +527,7 @@ func (i *interpreter) checkAssert(cond value, tag string) {
 			return false
 		}
 		ps.viols = append(ps.viols, Violation{Tag: tag, Known: known, Model: m, Inputs: append([]Input{}, ps.inputs...),
-			Trace: append([]Decision{}, ps.trace...), Obs: append([]string{}, ps.obs...), Named: copyNamed(ps.named)})
+			Trace: append([]Decision{}, ps.trace...), Obs: append([]string{}, ps.obs...), Named: copyNamed(ps.named), Sched: append([]int{}, ps.yieldLog...)})
 		return true
 	}
 	report(outside, "")
